@@ -280,4 +280,5 @@ def fixed_cases() -> list:
     ]
 
 
-ENGINES = [Engine('sequences', gen.sequences, check, quick=90, thorough=2000, batch=15, fixed_cases=fixed_cases, quick_s=22.0, thorough_s=900.0)]
+# the quick tier is bounded by the number of cases (30 per shard), not by the clock: what it explores must not depend on the load of the machine
+ENGINES = [Engine('sequences', gen.sequences, check, quick=30, thorough=2000, batch=15, fixed_cases=fixed_cases, quick_s=240.0, thorough_s=900.0)]
